@@ -139,6 +139,72 @@ def _value_deps(f: Func, v: ast.expr) -> set[str]:
     return deps
 
 
+def _direct_names(k: ast.expr) -> set[str]:
+    """parameters that are the key itself, an element of a key tuple, or the root of an attribute chain in it"""
+    out: set[str] = set()
+    elts = k.elts if isinstance(k, ast.Tuple) else [k]
+    for e in elts:
+        while isinstance(e, ast.Attribute):
+            e = e.value
+        if isinstance(e, ast.Name):
+            out.add(e.id)
+    return out
+
+
+def _derived_from(f: Func, names: set[str], backwards: bool = False) -> set[str]:
+    """forwards: locals computed from `names`;  backwards: names that the locals in `names` are computed from"""
+    out = set(names)
+    changed = True
+    while changed:
+        changed = False
+        for n in own_nodes(f.node):
+            tg: list[str] = []
+            val = None
+            if isinstance(n, (ast.Assign, ast.AnnAssign)) and getattr(n, "value", None) is not None:
+                tg = [t.id for t in _targets(n) if isinstance(t, ast.Name)]
+                val = n.value
+            elif isinstance(n, ast.NamedExpr):
+                tg, val = [n.target.id], n.value
+            if val is None or not tg:
+                continue
+            used = {x.id for x in ast.walk(val) if isinstance(x, ast.Name)}
+            if not backwards and used & out and not set(tg) <= out:
+                out |= set(tg)
+                changed = True
+            if backwards and set(tg) & out and not used <= out:
+                out |= used
+                changed = True
+    return out
+
+
+def _validated(f: Func, table: str, params: set[str]) -> bool:
+    """Is a hit checked against the argument?  Some test mentions both the entry read from the table and the parameter (or a value
+    derived from it) - not counting the table read itself and bare `is None` tests."""
+    derived = _derived_from(f, params)
+    cached: set[str] = set()
+    reads: list[ast.AST] = []
+    for n in own_nodes(f.node):
+        is_read = (isinstance(n, ast.Call) and isinstance(n.func, ast.Attribute) and n.func.attr == "get" and unparse(n.func.value) == table) or \
+                  (isinstance(n, ast.Subscript) and isinstance(n.ctx, ast.Load) and unparse(n.value) == table)
+        if is_read:
+            reads.append(n)
+            p = getattr(n, "_parent", None)
+            if isinstance(p, ast.NamedExpr):
+                cached.add(p.target.id)
+            elif isinstance(p, (ast.Assign, ast.AnnAssign)):
+                cached |= {t.id for t in _targets(p) if isinstance(t, ast.Name)}
+    read_nodes = {id(x) for r in reads for x in ast.walk(r) if isinstance(x, ast.expr)}
+    for n in own_nodes(f.node):
+        t = getattr(n, "test", None) if isinstance(n, (ast.If, ast.IfExp, ast.While, ast.Assert)) else None
+        if t is None:
+            continue
+        names = {x.id for x in ast.walk(t) if isinstance(x, ast.Name) and id(x) not in read_nodes}
+        touches_entry = bool(names & cached) or any(id(x) in read_nodes for x in ast.walk(t) if isinstance(x, ast.expr))
+        if touches_entry and names & (derived - cached):
+            return True
+    return False
+
+
 def memo_tables(M: Model, files: set[str] | None = None) -> Iterator[MemoTable]:
     for f in list(M.func_of_node.values()):
         if files is not None and f.mod.rel not in files:
@@ -151,8 +217,10 @@ def memo_tables(M: Model, files: set[str] | None = None) -> Iterator[MemoTable]:
             continue
         stores: dict[str, list[ast.Assign]] = {}
         for n in own_nodes(f.node):
-            if isinstance(n, ast.Assign) and len(n.targets) == 1 and isinstance(n.targets[0], ast.Subscript) and isinstance(n.targets[0].value, ast.Attribute):
-                stores.setdefault(unparse(n.targets[0].value), []).append(n)
+            if isinstance(n, ast.Assign):
+                for tg in n.targets:
+                    if isinstance(tg, ast.Subscript) and isinstance(tg.value, ast.Attribute):
+                        stores.setdefault(unparse(tg.value), []).append(n)
         if not stores:
             continue
         for table, sts in stores.items():
@@ -187,16 +255,23 @@ def memo_tables(M: Model, files: set[str] | None = None) -> Iterator[MemoTable]:
             reads.extend(tests)
             # the value read must be handed back (a memo), not merely consulted
             for st in sts:
-                k_store = inline_locals(f.node, st.targets[0].slice)
+                tgt = next(t for t in st.targets if isinstance(t, ast.Subscript) and unparse(t.value) == table)
+                k_store = inline_locals(f.node, tgt.slice)
                 ks = unparse(k_store)
                 rks = [unparse(inline_locals(f.node, r)) for r in reads]
                 deps = _value_deps(f, st.value) & params
-                key_names = {n.id for n in ast.walk(k_store) if isinstance(n, ast.Name)}
+                direct = _direct_names(k_store)
+                mentioned = {n.id for n in ast.walk(k_store) if isinstance(n, ast.Name)} | _derived_from(f, {n.id for n in ast.walk(k_store) if isinstance(n, ast.Name)}, backwards=True)
                 problem = None
                 if any(rk != ks for rk in rks):
                     problem = f"table `{table}` is read with key `{[rk for rk in rks if rk != ks][0]}` but filled with key `{ks}`"
                 else:
-                    missing = sorted(deps - key_names)
+                    missing = sorted(deps - mentioned)
                     if missing:
                         problem = f"table `{table}` is keyed on `{ks}` but the stored value also depends on parameter(s) {missing}: a hit returns the object built for another argument"
+                    else:
+                        lossy = sorted(p for p in deps if p not in direct)
+                        if lossy and not _validated(f, table, set(lossy)):
+                            problem = (f"table `{table}` is keyed on `{ks}`, which is only derived from parameter(s) {lossy} (several arguments share a key), and a hit is "
+                                       f"returned without checking the entry against the argument: the object built for another argument is handed back")
                 yield MemoTable(f, table, rks, ks, unparse(st.value), deps, problem, st)
